@@ -1,7 +1,8 @@
 // SPDX-License-Identifier: BSL-1.1 OR Apache-2.0
 use std::{
-    collections::HashSet,
-    sync::Arc,
+    collections::{hash_map::DefaultHasher, HashSet},
+    hash::{Hash, Hasher},
+    sync::{Arc, Mutex, MutexGuard, PoisonError},
     time::{SystemTime, UNIX_EPOCH},
 };
 
@@ -167,6 +168,24 @@ impl GarbageCollector {
     }
 }
 
+const REF_COUNT_STRIPES: usize = 64;
+#[allow(clippy::declare_interior_mutable_const)]
+const REF_COUNT_LOCK_INIT: Mutex<()> = Mutex::new(());
+/// Striped locks serializing reference-count updates of one chunk.
+static REF_COUNT_LOCKS: [Mutex<()>; REF_COUNT_STRIPES] = [REF_COUNT_LOCK_INIT; REF_COUNT_STRIPES];
+
+/// A count is read, changed and written back: concurrent updates of the same chunk
+/// must not interleave or one of them is lost.
+fn ref_count_lock(chunk_key: &str) -> MutexGuard<'static, ()> {
+    let mut hasher = DefaultHasher::new();
+    chunk_key.hash(&mut hasher);
+    #[allow(clippy::cast_possible_truncation)]
+    let stripe = (hasher.finish() % REF_COUNT_STRIPES as u64) as usize;
+    REF_COUNT_LOCKS[stripe]
+        .lock()
+        .unwrap_or_else(PoisonError::into_inner)
+}
+
 /// Verification hook: a schedule point inside the reference-count read-modify-write
 /// window (between reading a chunk record and writing the new count back). The installed
 /// callback receives the chunk key; `None` (the default) does nothing.
@@ -191,6 +210,7 @@ fn verif_refcount_window(chunk_key: &str) {
 ///
 /// Returns an error if the store operation fails.
 pub fn decrement_chunk_refs(store: &TensorStore, chunk_key: &str) -> Result<()> {
+    let _count_guard = ref_count_lock(chunk_key);
     if let Ok(mut tensor) = store.get(chunk_key) {
         #[cfg(feature = "neumann_verif")]
         verif_refcount_window(chunk_key);
@@ -211,6 +231,7 @@ pub fn decrement_chunk_refs(store: &TensorStore, chunk_key: &str) -> Result<()> 
 ///
 /// Returns an error if the store operation fails.
 pub fn increment_chunk_refs(store: &TensorStore, chunk_key: &str) -> Result<()> {
+    let _count_guard = ref_count_lock(chunk_key);
     if let Ok(mut tensor) = store.get(chunk_key) {
         #[cfg(feature = "neumann_verif")]
         verif_refcount_window(chunk_key);
